@@ -15,6 +15,14 @@ type modelCase struct {
 	Form string `json:"form"`
 	X    []int  `json:"x"`
 	OK   bool   `json:"ok"`
+	S0   *struct {
+		OK bool `json:"ok"`
+		N  int  `json:"n"`
+	} `json:"s0"`
+	S1 *struct {
+		OK bool `json:"ok"`
+		N  int  `json:"n"`
+	} `json:"s1"`
 }
 
 func readCases(path string) []modelCase {
@@ -58,12 +66,26 @@ func runReplay(casesPath, out string) {
 	cs := readCases(casesPath)
 	r := &result{Mode: "replay", Extra: map[string]any{}}
 	seen := map[string]bool{}
-	nonCanonAccepted := 0
+	nonCanonAccepted, txReuse, streamCases := 0, 0, 0
 	byKind := map[string][2]int{}
 	for i, c := range cs {
 		x := toBytes(c.X)
-		o := observe(c.Kind, x)
+		o, bd := observeTimed(c.Kind, x)
 		r.Evaluations++
+		if bd != nil {
+			bd.ID, bd.Index = c.ID, i
+			r.Deviations = append(r.Deviations, *bd)
+		}
+		if o.TxReuse {
+			txReuse++
+		}
+		var ms modelStream
+		if c.S0 != nil && c.S1 != nil {
+			ms = modelStream{Known: true, S0ok: c.S0.OK, S0n: c.S0.N, S1ok: c.S1.OK, S1n: c.S1.N, HaveS1: len(x) > 1}
+			streamCases++
+		} else if streamKinds[c.Kind] {
+			fatal("case %s of a stream kind carries no stream verdicts", c.ID)
+		}
 		k := c.Kind + ":" + string(x)
 		if !seen[k] {
 			seen[k] = true
@@ -82,7 +104,7 @@ func runReplay(casesPath, out string) {
 			bk[1]++
 		}
 		byKind[c.Kind] = bk
-		for _, d := range judge(c.Kind, x, true, c.OK, o, c.Site+"="+c.Form) {
+		for _, d := range judge(c.Kind, x, true, c.OK, o, c.Site+"="+c.Form, ms) {
 			d.ID, d.Index = c.ID, i
 			r.Deviations = append(r.Deviations, d)
 			if strings.HasPrefix(d.Sig, "noncanonical-accepted") {
@@ -96,6 +118,8 @@ func runReplay(casesPath, out string) {
 	}
 	r.Extra["by_kind_accept_reject"] = byKind
 	r.Extra["noncanonical_accepted"] = nonCanonAccepted
+	r.Extra["stream_cases"] = streamCases
+	r.Extra["tx_decoded_into_used_object_keeps_old_id"] = txReuse
 	writeResult(out, r)
 }
 
